@@ -294,17 +294,82 @@ def run(ctx):
             cap = n.comparators[0].value
     if cap is None:
         raise AnalysisError('header size cap not found in Stream.read_response')
-    reads = [c for c in U.calls(gh.node, attr='read')]
-    for c in reads:
+    reads = [(gh, c, {}) for c in U.calls(gh.node, attr='read')]
+    if not reads:
+        # the block may be read through a helper (e.g. wpull.util.peek_file(self.block_file[, length]))
+        for c in U.calls(gh.node):
+            if any(U.is_self_attr(a, 'block_file') for a in c.args):
+                for g in ctx.res.callee_funcs(gh, c, allow_name=False, count=False):
+                    gparams = list(g.params)
+                    binding = {}
+                    for i, a in enumerate(c.args):
+                        if i < len(gparams):
+                            binding[gparams[i]] = a
+                    for k in c.keywords:
+                        if k.arg:
+                            binding[k.arg] = k.value
+                    defaults = dict(zip(gparams[len(gparams) - len(g.node.args.defaults):], g.node.args.defaults))
+                    for pn, dv in defaults.items():
+                        binding.setdefault(pn, dv)
+                    for rc in U.calls(g.node, attr='read'):
+                        reads.append((g, rc, binding))
+    for f_, c, binding in reads:
         if not c.args:
             ck.ok('C07-D3', gh.qual, 'unbounded read of the block')
             continue
+        arg = c.args[0]
+        if isinstance(arg, ast.Name) and arg.id in binding:
+            arg = binding[arg.id]
         try:
-            n = repo.fold(fmod, c.args[0])
+            n = repo.fold(f_.module, arg)
         except ValueError:
             n = None
         ck.expect(isinstance(n, int) and (n < 0 or n >= cap), 'C07-D3', gh.qual, 'window %s >= header cap %d' % (n, cap),
                   'only %s bytes of the block are inspected but the HTTP reader accepts header blocks up to %d bytes' % (n, cap),
-                  gh.loc(c))
+                  f_.loc(c))
     if not reads:
-        raise AnalysisError('get_http_header no longer reads the block file')
+        ck.bad('C07-D3', gh.qual, 'read of the record block', 'get_http_header does not read the block file (directly or through a helper) with a known window', gh.loc())
+
+    # the header sniffer must be as lenient as the parser that accepted the response when it was fetched
+    live = repo.func('wpull.protocol.http.request:Response.parse')
+    def _strict_args(f):
+        out = []
+        for c in U.calls(f.node, attr='parse'):
+            if isinstance(c.func.value, ast.Attribute) and c.func.value.attr == 'fields':
+                st = U.kwarg(c, 'strict', 1)
+                out.append((c, st))
+        return out
+    live_lenient = all(isinstance(st, ast.Constant) and st.value is False for c, st in _strict_args(live)) and bool(_strict_args(live))
+    for c, st in _strict_args(gh):
+        lenient = isinstance(st, ast.Constant) and st.value is False
+        ck.expect(lenient or not live_lenient, 'C07-D3', gh.qual, 'header fields parsed leniently, like Response.parse',
+                  'the CDX header sniffer parses the field block strictly while the live response parser is lenient: a response with a '
+                  'colon-less header line is archived with its real status but indexed with status/MIME "-"', gh.loc(c))
+    if not _strict_args(gh):
+        ck.bad('C07-D3', gh.qual, 'fields.parse(field block)', 'the header sniffer no longer parses the field block', gh.loc())
+    # every CDX column is free of the column delimiter: the MIME type is a token/token match of a constant pattern
+    pm_ = repo.func(CLS + '.parse_mimetype')
+    rets = [r for r in walk_no_nested(pm_.node) if isinstance(r, ast.Return) and r.value is not None]
+    okm = bool(rets)
+    for r in rets:
+        v = r.value
+        good = False
+        if isinstance(v, ast.Call) and U.attr_name(v) == 'group' and isinstance(v.func.value, ast.Name):
+            d_ = U.local_defs(pm_.node).get(v.func.value.id, [])
+            for dv, k_, s_ in d_:
+                rx = RX.rx_from_call(repo, mod, dv) if isinstance(dv, ast.Call) else None
+                if rx is not None:
+                    # no item of the pattern may match the delimiter, tab, CR or LF
+                    bad_ch = []
+                    for op, av in rx.walk():
+                        if op in (C.IN, C.LITERAL, C.NOT_LITERAL, C.ANY, C.CATEGORY):
+                            for ch in (32, 9, 10, 13):
+                                if RX.can_match_char(rx, (op, av), ch):
+                                    bad_ch.append(ch)
+                    good = not bad_ch
+        elif isinstance(v, ast.Constant) and (v.value is None or (isinstance(v.value, str) and ' ' not in v.value)):
+            good = True
+        okm = okm and good
+    ck.expect(okm, 'C07-D2', pm_.qual, 'MIME column = token/token match of a pattern that cannot match the delimiter',
+              'the MIME type written to the CDX line can contain the column delimiter (blank): every following column is shifted '
+              'and the line no longer addresses its record', pm_.loc())
